@@ -97,12 +97,12 @@ def eval_contract_natively(case, args, outcome):
     from .verify import struct_eq
 
     out = []
-    reqs = case.requires(**args)
+    reqs = case.requires(args)
     for label, f in reqs:
         out.append((f"requires.{label}", native_truth(f)))
     if not all(ok for _, ok in out):
         return out, False
-    raises = case.raises(**args)
+    raises = case.raises(args)
     if outcome[0] == "raise":
         e = outcome[1]
         match = [native_truth(c) for exc, label, c in raises if isinstance(e, exc)]
@@ -112,9 +112,9 @@ def eval_contract_natively(case, args, outcome):
         for exc, label, c in raises:
             out.append((f"noraise.{exc.__name__}.{label}", not native_truth(c)))
         if case.has_value():
-            exp = case.value(**args)
+            exp = case.value(args)
             out.append(("post.value", native_equal(res, exp)))
-        for label, f in case.ensures(res, **args):
+        for label, f in case.ensures(res, args):
             out.append((f"post.{label}", native_truth(f)))
     return out, True
 
